@@ -236,7 +236,7 @@ class Mod:
                 if not self.opts.get("nested_classes", True):
                     kd = "instance"
                 kind = rng.choice(["instance", "class", "static"])
-                cls_path = ["K0", "In"] if self.opts.get("nested_classes", True) else ["K0"]
+                cls_path = [rng.choice(["K0", "K1"]), "In"] if self.opts.get("nested_classes", True) else ["K0"]
             else:
                 kind = kd
             if kind != "module" and not cls_path:
